@@ -3,8 +3,8 @@
 Nothing here touches ioflo's source.  Three groups:
 
 * C30: `IncomerStub` (collects what a Responder transmits; what a Requestant needs of
-  its incomer), `WireReader` (an independent, minimal HTTP/1.1 message splitter used as
-  reference for "is this response delimited").
+  its incomer), `read_response` (an independent, minimal RFC 7230 response reader used as
+  reference for "is this response delimited"), `run_concrete` (untraced concrete section).
 * C31: an in-memory socket pair (`Pipe`, `Conn`, `Listen`) for the unmodified
   `Patron` <-> `Valet`, with a transfer-limit policy (`SlotLimits`) whose call index and
   byte limit are symbolic integers.
